@@ -20,4 +20,8 @@ GMixed   == << T("z", <<>>, FALSE, FALSE), T("a", <<1>>, TRUE, FALSE), T("m", <<
 MkVer(p, conc, qlimit, replace, delay, cont, tasks, cyclic) ==
   [p |-> p, conc |-> conc, qlimit |-> qlimit, replace |-> replace, delay |-> delay, cont |-> cont,
    retCount |-> 0, retPeriod |-> 0, tasks |-> tasks, cyclic |-> cyclic]
+\* with retention settings (retPeriod in ticks)
+MkRet(p, conc, qlimit, retCount, retPeriod, tasks) ==
+  [p |-> p, conc |-> conc, qlimit |-> qlimit, replace |-> FALSE, delay |-> 0, cont |-> FALSE,
+   retCount |-> retCount, retPeriod |-> retPeriod, tasks |-> tasks, cyclic |-> FALSE]
 =============================================================================
